@@ -238,6 +238,19 @@ def gen_cases(rng: random.Random, tier: str, names: Dict[int, List[str]]):
             structs.append(("fields", fl))
         ap = rng.random() < 0.7
         yield structs, ap, ap, "nested"
+    # every native type name of parser.supported_types, through the gcc probe: the C spelling the back end chooses for it
+    # must have the size / alignment the parser's layout assumes (long = 4 bytes on every platform, etc.)
+    every = [n for l in names.values() for n in l]
+    by_size = {n: sz for sz, l in names.items() for n in l}
+    structs = []
+    for t in every:
+        structs.append(("fields", [("n", t, None), ("n", t, 3)]))
+        structs.append(("fields", [("n", "int32", None), ("n", t, None), ("n", "char", None)]))     # PAIR-like, needs padding for 8
+        structs.append(("fields", [("n", "char", None), ("r", len(structs) - 2, 2)]))               # as array element, nested
+    yield structs, True, True, "every-native-gcc"
+    for t in every:       # auto padding off: two of a kind need none
+        yield [("fields", [("n", t, None), ("n", t, 3)]),
+               ("fields", [("r", 0, None), ("n", t, None), ("r", 0, 2)])], False, True, "every-native-gcc"
     # fields typed by an ALIAS OF A STRUCT (declared in an imported file): aligned like the struct, not to its size
     pair = ("fields", [("n", "double", None), ("n", "double", None)])            # size 16, alignment 8
     triple = ("fields", [("n", "int32", None), ("n", "int32", None), ("n", "int32", None)])   # size 12, alignment 4
@@ -407,8 +420,8 @@ def check_command_line(chk: Check, names, nat_size, dist: Dict[str, int], nontri
 
 def run(chk: Check):
     rng = random.Random(chk.seed)
-    if not regen_or_report(chk):
-        return
+    from ..defs_reg_common import regen_cone
+    regen_cone(chk, ("TypeTables.v",))      # a translator failing closed is reported; the gcc-probed search below still runs
     proved = chk.prove(FAM, "Props.C11", THEOREMS, extra_targets=["Model/Closure.vo"])
     if proved and chk.tier == "thorough":
         okc, outc = FAM.coqchk("Props.C11")
